@@ -15,6 +15,13 @@ func VerifRunSlaveLoop(s *Slice, ctx context.Context, slave *DBInfo, downAfterNo
 	s.checkBackendSlaveStatus(ctx, slave, downAfterNoAlive, secondsBehindMaster)
 }
 
+// VerifGetConnWithFuse is the fuse entry point of a session whose replica was already selected
+// (getNodeFromBalancer returned it earlier): pool Get + TryFuse for that node, whatever its
+// status is by now.
+func VerifGetConnWithFuse(s *Slice, node *NodeInfo) (PooledConnect, error) {
+	return s.getConnWithFuse(node)
+}
+
 // VerifGradualState: read-only view for the canonical state key / counter comparison.
 func VerifGradualState(g *GradualRecoveryStrategy) (errorRecoveryCount, consecutiveSuccessCheckCount, lastRecoveryTime, lastFuseTime int64) {
 	return g.errorRecoveryCount.Get(), g.consecutiveSuccessCheckCount.Get(), g.lastRecoveryTime.Get(), g.lastFuseTime.Get()
